@@ -157,7 +157,7 @@ def plan_shards(tier):
     c34 = list(itertools.product(compositions(3), compositions(4)))
     if tier == "quick":
         add((6,), c6[::3], nans=[(0,), (2, 3), (0, 1, 2, 3, 4, 5)])
-        add((3, 4), c34[::4], nans=[(0,), (4, 5, 6, 7), (1, 5, 9)])
+        add((3, 4), c34[::4], nans=[(0,), (4, 5, 6, 7), (1, 5, 9), (0, 1, 4), (0, 4, 5), (2, 3, 6, 11), (0, 1, 2, 4, 8)])
         add((2, 3, 2), [((1, 1), (2, 1), (2,))])
         add((0, 3), [((0,), (1, 2))])
         add((4,), [(c,) for c in chz(4, 1) if 0 in c][::4])
@@ -165,7 +165,7 @@ def plan_shards(tier):
         masks4 = [tuple(i for i in range(4) if m >> i & 1) for m in range(1, 16)]
         add((6,), c6, nans=[(0,), (5,), (2, 3), (0, 2, 4), (0, 1, 2, 3, 4, 5)], complex_=True)
         add((4,), [(c,) for c in compositions(4)], nans=masks4)
-        add((3, 4), c34, nans=[(0,), (4, 5, 6, 7), (1, 5, 9), (0, 1, 2, 3, 4, 5, 6, 7, 8, 9, 10, 11)])
+        add((3, 4), c34, nans=[(0,), (4, 5, 6, 7), (1, 5, 9), (0, 1, 2, 3, 4, 5, 6, 7, 8, 9, 10, 11)] + [tuple(c) for k in (2, 3) for c in itertools.combinations(range(12), k)][::3])
         add((2, 3, 2), list(itertools.product(compositions(2), compositions(3), compositions(2)))[::2])
         add((0, 3), [((0,), c) for c in compositions(3)])
         add((1, 4), [((1,), c) for c in compositions(4)])
